@@ -1,11 +1,12 @@
 (** Extraction of the executable model of internal/generate/compile.go (C05) together with the
-    class predicate, the property predicates and the specification of the warnings.
+    class predicate, the property predicates and the specification of the warnings, and of
+    generate.Compile as a function of the TEXT (Dbc/CompileText.v: parser model, then compile model).
     Directives: those of ExtrOcamlBasic only; Z / positive stay Coq inductives. *)
 From Coq Require Extraction ExtrOcamlBasic.
 From Coq Require Import ZArith List.
-From CanVerif Require Import Base.Sort Dbc.Ast Descriptor.Types Dbc.Compile Dbc.CompileSpec.
+From CanVerif Require Import Base.Sort Dbc.Ast Descriptor.Types Dbc.Compile Dbc.CompileSpec Dbc.CompileText.
 Extraction Language OCaml.
 Extraction "model.ml"
-  compile compile_old in_class canonicalb denotes_check_lhs denotes_check_rhs spec_warnings
+  compile compile_old text_defs compile_text in_class canonicalb denotes_check_lhs denotes_check_rhs spec_warnings
   def_pos is_independent_signals_message msgid_valid file
   Z.add Z.mul Z.sub Z.ltb Z.leb Z.eqb Z.of_nat Z.to_nat Z.pow Z.modulo Z.div.
